@@ -257,6 +257,7 @@ ARENA = {
         mism=['result-kind', 'base-allocator-events', 'stats'],
         colls_x=['overflow:', 'a failed reserve', 'capacity: a failed', 'although the length would overflow', 'the crate panicked in a try_'],
         colls_mism=[' capacity '],
+        quick_x=(160, 40),
         search_x=True,
         note='arena-level failure theorems proved; collection level: for BumpVec / FixedBumpVec / MutBumpVec(Rev) the capacity model VecCap.v is proved atomic (a failed reserve / push / extend leaves length and capacity as they were; overflowing requests are errors without an allocator call) and replayed from capacity histories with injected refusals; PARTIAL: strings and the contents after a failure are probed on the implementation only'),
     'C10': dict(
